@@ -1,23 +1,38 @@
 """C19 - unit-checking helpers decide by physical equality, not by spelling.
 
-Spec: spec/Helpers.tla (closeness/equality helpers), spec/HelpersDeco.tla (accepts/returns),
-      bounded instances MC_C19 / MC_C19_deco, trace validation Trace_C19 / Trace_C19_deco.
-  1. TLC enumerates the single-step case table of the closeness/equality helpers (operand kinds x unit pairs
-     x tolerance spellings x value grid straddling every reading of the tolerance) and, for the decorators, the
-     single-call sweep (every dimension of unyt.dimensions x units) plus all bounded histories of calls of
-     once-decorated functions; for every case the implementation-shaped outcome, the property verdict on it
-     (model-level counterexamples) and the physical identity for the re-expression clause are exported.
-  2. every case/history is replayed on the real library (harness/impl_c19.py).
-  3. TLC evaluates the C19 predicates on the observed outcomes (P), the re-expression clause on groups of
-     physically identical cases, and compares with the transcription (T).
+Spec: spec/Helpers.tla (closeness/equality helpers), spec/HelpersHist.tla (histories of helper calls over reused
+      operand objects + purity), spec/HelpersDeco.tla (accepts/returns); bounded instances MC_C19 / MC_C19_hist /
+      MC_C19_deco; trace validation Trace_C19 / Trace_C19_hist / Trace_C19_deco.
+  1. TLC enumerates (a) the single-step case table of the closeness/equality helpers (operand kinds x unit pairs x
+     tolerance spellings x value grid straddling every reading of the tolerance), (b) all histories of 2/3 helper
+     calls over pairs of reused operand objects (float64/float32 arrays, quantities, bare ndarrays, views; same
+     object twice, both orders, re-expression by .to() at call time), (c) the decorator sweep (every dimension of
+     unyt.dimensions x units) and all bounded histories of calls of once-decorated functions.
+  2. every case/history is replayed on the real library (harness/impl_c19.py); for (b) every pool object is
+     snapshotted after every call (numbers, unit label, dtype, base array behind a view).
+  3. TLC evaluates the C19 predicates on the observed outcomes (P: verdict on the denoted quantities, purity of the
+     helpers, re-expression groups, decorator clauses) and compares with the transcription (T).
+The three pipelines run concurrently (ck.tlc is thread-safe; replays are serialised); verdicts are applied by the
+main thread in a fixed order, so the output is deterministic.
 """
 
+import concurrent.futures as cf
 import json
+import threading
 
 from common import MachineryFailure
 
-CHUNK = 30000
 CASE_FIELDS = ("helper", "reg", "ka", "kd", "a", "au", "d", "du", "rt", "at")
+_PMAP = threading.Lock()
+
+
+def pmap(ck, cases, nproc=None):
+    with _PMAP:  # Check.pmap numbers its scratch files with a plain counter
+        obs = ck.pmap("impl_c19", "observe", cases, nproc=nproc)
+    bad = [o for o in obs if "_error" in o]
+    if bad:
+        raise MachineryFailure("replay error: " + str(bad[0]))
+    return obs
 
 
 def _strip(c):
@@ -39,9 +54,13 @@ def _key(r):
     }
 
 
-def _validate_close(ck, cases, obs, label):
-    """cases: exported MC_C19 records (with phys); returns number of P-FAILs"""
-    # group physically identical cases (projection only: the identity was computed by TLC) and make groups contiguous
+def _new_out():
+    return {"validated": 0, "drift": [], "viol": [], "classes": {}}
+
+
+def _validate_close(ck, cases, obs, label, nchunks=1):
+    """-> out dict; groups physically identical cases (projection only: the identity was computed by TLC), makes the
+    groups contiguous and validates the chunks concurrently"""
     gid = {}
     recs = []
     for c, o in zip(cases, obs):
@@ -53,97 +72,138 @@ def _validate_close(ck, cases, obs, label):
     order = sorted(range(len(recs)), key=lambda k: (recs[k]["g"], k))
     recs = [recs[k] for k in order]
     cases = [cases[k] for k in order]
-    npf = 0
-    for off in range(0, len(recs), CHUNK):
-        part = recs[off : off + CHUNK]
+    size = max(1, -(-len(recs) // nchunks))
+    offs = list(range(0, len(recs), size))
+
+    def one(off):
+        part = recs[off : off + size]
         path = ck.write_json(f"obs_{label}_{off}.json", part)
         res = ck.tlc("Trace_C19", env={"OBS": path}, workers=1, coverage=False, label=f"trace-validation {label} [{off}:{off + len(part)}]", timeout=2400)
         if res.distinct != len(part) + 1:
             raise MachineryFailure(f"trace validation consumed {res.distinct} states, expected {len(part) + 1}")
-        ck.validated(len(part))
+        return off, len(part), res
+
+    with cf.ThreadPoolExecutor(max_workers=max(1, min(len(offs), 4))) as ex:
+        results = list(ex.map(one, offs))
+    out = _new_out()
+    out["groups"] = len(gid)
+    for off, n, res in results:
+        out["validated"] += n
         for r in res.by_tag("T-FAIL"):
-            ck.drift_step(r["helper"], {"kinds": [r["actual_kind"], r["desired_kind"]], "units": r["units"], "atol": r["atol"], "rtol": r["rtol"], "model": r["model"], "observed": r["observed"], "case": _strip(cases[off + r["i"] - 1])})
+            out["drift"].append((r["helper"], {"kinds": [r["actual_kind"], r["desired_kind"]], "units": r["units"], "atol": r["atol"], "rtol": r["rtol"], "model": r["model"], "observed": r["observed"], "case": _strip(cases[off + r["i"] - 1])}))
         for r in res.by_tag("P-FAIL"):
-            npf += 1
             c = cases[off + r["i"] - 1]
             cls = f"{r['helper']}|{r['clause']}|{r['explains']}|atol={r['atol']}|rtol={r['rtol']}|{r['units']}"
-            ck.cov.setdefault("close_p_fail_classes", {})
-            ck.cov["close_p_fail_classes"][cls] = ck.cov["close_p_fail_classes"].get(cls, 0) + 1
-            ck.violation(_key(r), {"observed": r["observed"], "model": r["model"], "case": _strip(c)}, case=dict(_strip(c), fam="close"))
-    return npf, len(gid)
+            out["classes"][cls] = out["classes"].get(cls, 0) + 1
+            out["viol"].append((_key(r), {"observed": r["observed"], "model": r["model"], "case": _strip(c)}, dict(_strip(c), fam="close")))
+    return out
 
 
 def _nontrivial_close(c):
     """the case exercises the property beyond 'same unit, zero tolerance': operands in different units or kinds,
-    a tolerance with a unit, or a bare atol with operands of different scale"""
+    or a tolerance with a unit"""
     units = set(c["au"]) | set(c["du"])
     return len(units) > 1 or c["rt"]["k"] == "q" or c["at"]["k"] == "q" or c["ka"] != c["kd"]
 
 
-def _run_close(ck):
+def _pipe_close(ck):
     cfg = ck.q("MC_C19_quick", "MC_C19_thorough")
     res = ck.tlc("MC_C19", cfg, workers=1, coverage=False, label=f"closeness/equality case table {cfg}", timeout=3000)
     cases = [r["c"] for r in res.by_tag("CASE")]
     if len(cases) != res.distinct - 1 or len(cases) < 1000:
         raise MachineryFailure(f"exported {len(cases)} cases for {res.distinct} states")
     cases.sort(key=lambda c: json.dumps(_strip(c), sort_keys=True))
-    by = {}
-    cex = {}
+    by, cex = {}, {}
     for c in cases:
         k = f"{c['reg']}:{c['helper']}"
         by[k] = by.get(k, 0) + 1
         if c["mp"]:
             k = f"{c['helper']}:{c['mp']}"
             cex[k] = cex.get(k, 0) + 1
-    ck.cov["close_cases_by_helper"] = by
-    ck.cov["close_model_level_counterexamples"] = cex
+        c["fam"] = "close"
+    obs = pmap(ck, cases)
+    out = _validate_close(ck, cases, obs, "close", nchunks=ck.q(4, 6))
+    samples = []
     for h in ("allclose_units", "np.isclose", "assert_array_equal_units"):
         ex = [c for c in cases if c["helper"] == h]
         if ex:
-            ck.sample(_strip(ex[len(ex) // 2]))
+            samples.append(_strip(ex[len(ex) // 2]))
+    out.update(cases=len(cases), nontrivial=sum(1 for c in cases if _nontrivial_close(c)), samples=samples, cov={"close_cases_by_helper": by, "close_model_level_counterexamples": cex, "close_cases": len(cases), "close_reexpression_groups": out["groups"]})
+    return out
+
+
+def _pipe_hist(ck):
+    import c19_hist
+
+    cases = c19_hist.generate(ck)
+    pc = [c19_hist._case(c) for c in cases]
+    obs = pmap(ck, pc)
+    out = c19_hist.validate(ck, cases, obs, "table")
+    mid = cases[len(cases) // 2]
+    cex = {}
     for c in cases:
-        c["fam"] = "close"
-    obs = ck.pmap("impl_c19", "observe", cases)
-    bad = [o for o in obs if "_error" in o]
-    if bad:
-        raise MachineryFailure("replay error: " + str(bad[0]))
-    npf, ngroups = _validate_close(ck, cases, obs, "close")
-    ck.cov["close_cases"] = len(cases)
-    ck.cov["close_reexpression_groups"] = ngroups
-    ck.cov["close_observed_p_fail"] = npf
-    return len(cases), sum(1 for c in cases if _nontrivial_close(c))
+        for st, m in zip(c["steps"], c["mp"]):
+            if m:
+                cex[f"{st['helper']}:{m}"] = cex.get(f"{st['helper']}:{m}", 0) + 1
+    out.update(cases=len(cases), nontrivial=len(cases), samples=[{"pool": mid["pool"], "steps": mid["steps"]}],
+               cov={"hist_histories": len(cases), "hist_calls": sum(len(c["steps"]) for c in cases), "hist_model_level_counterexamples": cex})
+    return out
+
+
+def _pipe_deco(ck):
+    import c19_deco
+
+    return c19_deco.pipeline(ck)
+
+
+def _apply(ck, out, classes_name):
+    ck.validated(out["validated"])
+    for action, detail in out["drift"]:
+        ck.drift_step(action, detail)
+    for key, detail, case in out["viol"]:
+        ck.violation(key, detail, case=case)
+    ck.cov[classes_name] = out["classes"]
+    for s in out.get("samples", []):
+        ck.sample(s)
+    ck.cov.update(out.get("cov", {}))
 
 
 def run(ck):
     ck.level = "model_checking"
     ck.assumptions += [
-        "closeness family: dyadic model registry (la=1, lb=ld=2^10, lc=2^-3 length; ta=1, tb=16 time; na=1, nq=1/4 dimensionless) where the float computation is exact, plus m/km/cm/inch, s/ms, dimensionless/percent, K/degC kept off every tolerance boundary by a 25% relative margin",
+        "closeness family: dyadic model registry (la=1, lb=ld=2^10, lc=2^-3 length; ta=1, tb=16 time; na=1, nq=1/4 dimensionless) where the float computation is exact (float64 and float32), plus m/km/cm/inch, s/ms, dimensionless/percent, K/degC kept off every tolerance boundary by a 25% relative margin",
         "a bare operand of allclose_units/assert_*/array_equal* is dimensionless ('arrays without units are considered dimensionless'); for np.isclose/np.allclose a bare or scale-1 dimensionless operand may adopt the other operand's unit or be refused, and a bare atol may be read in either operand's unit",
         "np.isclose/np.allclose are only called with bare rtol/atol and with at least one unyt operand (otherwise NumPy's own code runs)",
+        "helper histories: pairs of operand objects from a 19-object catalogue, first call over the full alphabet of the pair, later calls over a 9-call probing alphabet; purity is judged on numbers, unit label, dtype and the base array of views after every call",
         "known findings are matched on (helper, clause, the tolerance misreading that reproduces the wrong verdict, tolerance spelling, unit relation)",
     ]
     if ck.replay:
         blob = json.load(open(ck.replay))
         case = blob["case"]
-        obs = ck.pmap("impl_c19", "observe", [case], nproc=1)
-        if "_error" in obs[0]:
-            raise MachineryFailure("replay error: " + str(obs[0]))
+        obs = pmap(ck, [case], nproc=1)
         if case.get("fam") == "deco":
             import c19_deco
 
-            c19_deco.validate(ck, [case], obs, "replay")
+            _apply(ck, c19_deco.validate(ck, [case], obs, "replay"), "deco_p_fail_classes")
+        elif case.get("fam") == "hist":
+            import c19_hist
+
+            _apply(ck, c19_hist.validate(ck, [case], obs, "replay"), "hist_p_fail_classes")
         else:
-            _validate_close(ck, [dict(case, phys=[])], obs, "replay")
+            _apply(ck, _validate_close(ck, [dict(case, phys=[])], obs, "replay"), "close_p_fail_classes")
         return
 
-    n_close, nt_close = _run_close(ck)
-    import c19_deco
-
-    n_deco, nt_deco = c19_deco.run(ck)
+    with cf.ThreadPoolExecutor(max_workers=3) as ex:
+        futs = [ex.submit(_pipe_close, ck), ex.submit(_pipe_hist, ck), ex.submit(_pipe_deco, ck)]
+        outs = [f.result() for f in futs]
+    for out, name in zip(outs, ("close_p_fail_classes", "hist_p_fail_classes", "deco_p_fail_classes")):
+        _apply(ck, out, name)
+    ck.cov["tlc_runs"].sort(key=lambda r: r["label"])
     ck.cov["exhaustive"] = True
-    ck.cov["evaluations"] = n_close + n_deco
-    ck.cov["distinct_nontrivial"] = nt_close + nt_deco
+    ck.cov["evaluations"] = sum(o["cases"] for o in outs)
+    ck.cov["distinct_nontrivial"] = sum(o["nontrivial"] for o in outs)
     ck.cov["rule"] = (
         "closeness/equality: operands in different units or kinds, or a tolerance carrying a unit; "
+        "helper histories: every history (each reuses an operand object across calls); "
         "decorators: a history in which at least one checked argument or return value is present"
     )
